@@ -25,6 +25,15 @@ class C11(Prop):
         "NV.C11.interval_stored",
         "NV.C11.error_local",
         "NV.C11.error_local_others",
+        "NV.C11.gen_clampTo_eq",
+        "NV.C11.gen_rmCompensate_eq",
+        "NV.C11.gen_appendStore_eq",
+        "NV.C11.gen_efunSat_eq",
+        "NV.C11.gen_hbBody_eq",
+        "NV.C11.gen_loopStep_eq",
+        "NV.C11.gen_loopContinues_eq",
+        "NV.C11.setHeartBeat_eq_ref",
+        "NV.C11.round_eq_ref",
         "NV.C11.sim_disable",
         "NV.C11.sim_set",
         "NV.C11.sim_round",
@@ -61,6 +70,13 @@ class C11(Prop):
                    "command_giver / current_interactive / eval_cost handling around the heart_beat call",
                    "reload_object() (also calls set_heart_beat(ob, 0)) is not scripted",
                    "errors caught by catch() inside a heart_beat (they do not reach the uncaught branch of error_handler)"]
+
+    def gen_extra(self, ctx, bdir):
+        """T4: the decisive conditions / updates of set_heart_beat, f_set_heart_beat and call_heart_beat, recovered from
+        the clang AST of the working tree (props/c11_extract.py); raises TieBroken when a site cannot be located"""
+        from props import c11_extract
+        text, self.extracted = c11_extract.extract(bdir)
+        return text
 
     def prepare(self, ctx):
         self.exe = E.compile_harness("c11", [os.path.join(E.VERIF, "harness/c11/c11.c")])
